@@ -16,7 +16,7 @@ use self::BStr as String;
 //@extract file=rsjsonnet-lang/src/program/eval/format.rs item=enum:LenMod
 //@extract file=rsjsonnet-lang/src/program/eval/format.rs item=enum:ConvType
 //@extract file=rsjsonnet-lang/src/program/eval/format.rs item=enum:FieldWidth
-//@extract file=rsjsonnet-lang/src/program/eval/format.rs item=const:MAX_FLOAT_FMT_PREC
+//@extract file=rsjsonnet-lang/src/program/eval/format.rs item=const:MAX_FLOAT_FMT_PREC optional
 //@extract file=rsjsonnet-lang/src/program/eval/format.rs item=fn:render_float_def
 //@extract file=rsjsonnet-lang/src/program/eval/format.rs item=fn:render_float_exp
 //@extract file=rsjsonnet-lang/src/program/eval/format.rs item=fn:decorate_digits
